@@ -432,10 +432,12 @@ class FakeSnowflakeCursor:
         else:
             self._arrow_table_fetch_index += size
 
+        # build rows column-wise, because dicts can't represent results with repeated column names
+        columns = [_column_to_pylist(c) for c in tslice.columns]
         if self._use_dict_result:
-            return tslice.to_pylist()
-        # build tuples column-wise, because dicts can't represent results with repeated column names
-        return list(zip(*(c.to_pylist() for c in tslice.columns)))
+            names = tslice.column_names
+            return [dict(zip(names, row)) for row in zip(*columns)]
+        return list(zip(*columns))
 
     def get_result_batches(self) -> list[ResultBatch] | None:
         if self._arrow_table is None:
@@ -476,6 +478,14 @@ class FakeSnowflakeCursor:
 
     def _inline_variables(self, sql: str) -> str:
         return self._conn.variables.inline_variables(sql)
+
+
+def _column_to_pylist(column: pyarrow.ChunkedArray) -> list:
+    values = column.to_pylist()
+    if pyarrow.types.is_decimal(column.type) and column.type.scale == 0:
+        # the snowflake connector returns NUMBER(p,0) values as int, and only scale > 0 as Decimal
+        return [v if v is None else int(v) for v in values]
+    return values
 
 
 class FakeResultBatch(ResultBatch):
